@@ -215,6 +215,7 @@ done:
 		}
 	}
 	sc.Conns = []ConnScript{cs}
+	cp.LogoutErr = t.Chance(1, 4)
 	sc.BE.Conns = []ConnBackendPlan{cp}
 	return x
 }
